@@ -28,7 +28,8 @@ LEVEL_TEXT = ("Real child processes (well-behaved, exiting at every step k of th
               ' Also a native asyncio deadline (asyncio.timeout) during the grace periods, a 0.1 ms-step sweep of cancellation through the spawn (children looked up in /proc by parent pid), and an unread backlog of 99-130 messages ending in an id-carrying one.'
               ' Also a child flooding stdout with short lines that are not messages.'
               ' Also a flood without line breaks (repeated attempts, race-dependent), and (virtual time, scripted child) a request pending on the per-request API when the child dies / the context is left.'
-              ' Also exits that take longer than the designed 2.5 s plus slack are measured again twice (three in a row are a violation); the longest exit per child and exit path is recorded in the evidence.')
+              ' Also exits that take longer than the designed 2.5 s plus slack are measured again twice (three in a row are a violation); the longest exit per child and exit path is recorded in the evidence.'
+              ' Also a child that floods batch arrays and never reads its stdin, on a connection settled on a revision without batching (and one with).')
 LEVEL_NOTE = ("Trusted: /proc inspection, the spy around anyio.open_process (records pids of every spawn). Wall-clock bound "
               "uses 1.5 s slack; a breach is re-measured once in isolation and only a reproduced breach is a violation "
               "(a single one is inconclusive).")
@@ -130,6 +131,14 @@ def gen_cases(ctx) -> List[Dict[str, Any]]:
     for n in ((1_000_000,) if ctx.tier == "quick" else (300_000, 1_000_000, 2_000_000)):
         for e in ("normal", "cancel", "fail_after"):
             cases.append({"behaviour": f"junk_batch:{n}", "exit": e, "moment": "before_first", "idle": 0.3})
+    # a child that floods batch arrays and never reads its stdin, on a connection that has settled on a revision without
+    # batching: the rejections the client writes pile up in a pipe nobody drains - leaving must not wait for them
+    for e in exits:
+        for idle in (0.5, 1.5):
+            cases.append({"behaviour": "flood_batches", "exit": e, "moment": "before_first", "api": "client_object_versioned",
+                          "version": "2025-06-18", "idle": idle})
+    cases.append({"behaviour": "flood_batches", "exit": "normal", "moment": "before_first", "api": "client_object_versioned",
+                  "version": "2025-03-26", "idle": 0.5})
     # a request made through the per-request API is still unanswered when the context is left (every exit path)
     for b in ("never_read", "ignore_sigterm", "well_behaved", "sigterm_slow:0.5"):
         for e in exits + ["deadline_during_exit"]:
